@@ -53,7 +53,7 @@ def main():
                 "C06": "exactly-once checker over parsed response streams; Miri component; TSan rebuild (thorough)",
                 "C07": "offline exactly-once/order checker over event logs + hooked queue snapshots + stall oracle with unblock kick; Miri virtual clock; TSan (thorough)",
                 "C08": "stall oracle with close-another-connection kick over burst workloads; Miri on the pool; TSan (thorough)",
-                "C09": "sequence oracle with hostile bodies",
+                "C09": "sequence oracle with hostile bodies; Miri on the request object (boundary after drop)",
                 "C10": "classification reference + stall oracle with control connection",
                 "C11": "API-boundary availability monitor + stall oracle with answer-oldest kick; TSan (thorough)",
                 "C12": "persistence reference model vs observed delivery/EOF",
